@@ -141,6 +141,12 @@ func (prop) Run(t *testing.T, tape *kernel.Tape, sc kernel.Scenario) *kernel.Res
 				continue
 			}
 			nv := 1 + tape.Choose(2, label+"-nv")
+			if (label == "caller" || label == "auth") && tape.Bool(6, label+"-sets-the-name-with-no-value") {
+				// an empty array parameter: the name is set, there is nothing to send for it — and nothing fixed in the
+				// pattern or base path comes back in its place
+				nv = 0
+				v[k] = []string{}
+			}
 			for j := 0; j < nv; j++ {
 				v[k] = append(v[k], fmt.Sprintf("%s%d%s", label, j, []string{"", " x", "&y=z", "/"}[tape.Choose(4, label+"-v")]))
 			}
